@@ -648,9 +648,24 @@ deriving Repr
 
 def St.raise (s : St) : St := { s with err := true }
 
-/-- `__init__` / `setup_agent`: `_select_start_node` (index `k`), first schedule draw `d0`. -/
+/-- The nodes `_select_start_node` can select. -/
+def Cfg.startSet (c : Cfg) : List Val := if c.startingNodes.isEmpty then [c.defaultStartingNode] else c.startingNodes
+
+/-- `starting_network_knowledge` has an entry for `h` (user name and password), with an `ip_address` when one is needed. -/
+def Cfg.knows (c : Cfg) (h : Val) (needIp : Bool) : Bool :=
+  match c.creds0.get h with
+  | none => false
+  | some cr => !needIp || cr.ip.isSome
+
+/-- `check_network_knowledge_covers_targets` (settings validator, repair of F-C19-5): every `account_changes` host is
+known — with its address unless it is the only possible start node (then its password is changed locally) — and every
+`malicious_acls` router is known with its address. -/
+def Cfg.knowledgeOk (c : Cfg) : Bool :=
+  (c.accountChanges.all fun a => c.knows a.host (!(c.startSet.all (· == a.host)))) && (c.acls.all fun a => c.knows a.router true)
+
+/-- `__init__` / `setup_agent`: settings validation, `_select_start_node` (index `k`), first schedule draw `d0`. -/
 def init (c : Cfg) (d0 : Int) (k : Nat) : Option St :=
-  if randintOk c.variance ∧ (pick c.startingNodes c.defaultStartingNode k).isSome then
+  if randintOk c.variance ∧ (pick c.startingNodes c.defaultStartingNode k).isSome ∧ c.knowledgeOk then
     some { nextExec := c.startStep + d0, acctQueue := c.accountChanges, numAcls := c.acls.length,
            startNode := (pick c.startingNodes c.defaultStartingNode k).getD "" }
   else none
@@ -692,7 +707,8 @@ def handleLogin (s : St) : St :=
 
 /-- `_handle_change_password_response`: the new credentials are read back from the parameters of the last history
 item (remote: `remote_ip`, `command[3]`, `command[5]` under `_change_password_target_host`; local: `request[6]`,
-`request[8]` under `request[2]` = the `node_name` of the action, without an `ip_address`). -/
+`request[8]` under `request[2]` = the `node_name` of the action, keeping whatever else is known about that host — its
+`ip_address`: repair of F-C19-6). -/
 def handleChangePw (_c : Cfg) (s : St) : St :=
   match s.hist.getLast? with
   | none => s
@@ -704,7 +720,8 @@ def handleChangePw (_c : Cfg) (s : St) : St :=
         { s with session := none, creds := s.creds.set tgt { user := h.act.user, pw := h.act.newPw, ip := some h.act.ip },
                  chgPwTarget := none }
       else if h.kind = .changePwLocal ∧ h.resp.ok then
-        { s with session := none, creds := s.creds.set h.act.node { user := h.act.user, pw := h.act.newPw },
+        { s with session := none,
+                 creds := s.creds.set h.act.node { user := h.act.user, pw := h.act.newPw, ip := (s.creds.get h.act.node).bind (·.ip) },
                  chgPwTarget := none }
       else s
 
